@@ -150,7 +150,6 @@ funcs: spif_mbuff_init_from_buff
 # define LEN_RANGE(len)  (0 <= (len) && (len) <= VCAP)
 #endif
 
-long w_len, w_size;
 
 #ifdef U_INIT
 spif_bool_t spif_mbuff_init(spif_mbuff_t self)
